@@ -1,0 +1,9 @@
+//go:build verif
+
+package salsa
+
+// VerifGenericXORKeyStream exposes the portable genericXORKeyStream to the /verif harness
+// (property C09) so that it can be compared with the assembly in the same binary.
+func VerifGenericXORKeyStream(out, in []byte, counter *[16]byte, key *[32]byte) {
+	genericXORKeyStream(out, in, counter, key)
+}
